@@ -8,6 +8,7 @@ package sim
 import (
 	"bytes"
 	"context"
+	cryptorand "crypto/rand"
 	"encoding/hex"
 	"errors"
 	"fmt"
@@ -173,7 +174,21 @@ func (w *e3World) checkIdentity(id string, ident *idp.Identity) {
 	}
 }
 
+// tapeRand replaces crypto/rand.Reader during a keystore run: key generation is the one consumer
+// of randomness in the library, and a violation that depends on the bytes of a key must replay.
+type tapeRand struct{ x *xoshiro }
+
+func (t *tapeRand) Read(p []byte) (int, error) {
+	for i := range p {
+		p[i] = byte(t.x.next() >> 24)
+	}
+	return len(p), nil
+}
+
 func RunE3(r *Run) {
+	saved := cryptorand.Reader
+	cryptorand.Reader = &tapeRand{newXoshiro(uint64(r.Choose("key-entropy", 1<<30)))}
+	defer func() { cryptorand.Reader = saved }()
 	w := &e3World{r: r, model: map[string][]byte{}, idents: map[string]*idp.Identity{}, ctx: context.Background()}
 	w.d = &simds{Datastore: dssync.MutexWrap(ds.NewMapDatastore()), onFault: func(k string) { r.Fault(k) }}
 	nInst := 1 + r.Choose("ninst", 3)
